@@ -236,7 +236,10 @@ func Render(p *Prog, o RenderOpts) map[string]string {
 				head, headLines = noisy, noisyLines
 			}
 			lines = append(lines, head...)
-			if f.PkgTrail != nil {
+			if f.PkgTrail != nil && f.PkgTrailKeyword {
+				// the comment trails the keyword, the name follows on the next line (valid Go; gofmt keeps it)
+				lines = append(lines, "package // @ignore "+f.PkgTrail.Codes, f.EffPkgName())
+			} else if f.PkgTrail != nil {
 				lines = append(lines, "package "+f.EffPkgName()+" // @ignore "+f.PkgTrail.Codes)
 			} else {
 				lines = append(lines, "package "+f.EffPkgName())
